@@ -279,6 +279,7 @@ pub fn run_batch<P: Property>(p: &P, env: &Env, known: &KnownFile, threads: usiz
             let subs = &subs;
             let harness_err = &harness_err;
             handles.push(s.spawn(move || {
+                crate::simcore::mark_harness_thread();
                 let mut local: Vec<RunRec> = vec![];
                 loop {
                     if stop.load(Ordering::Relaxed) {
